@@ -147,7 +147,8 @@ theorem parsePublicKey_ed25519Blob (k : Bytes) (hk : k.length = 32) :
   rw [parseString_str _ (by decide)]
   have hne : sshEd25519 ≠ sshRsa := by decide
   have hne2 : sshEd25519 ≠ sshDss := by decide
-  simp only [show strBytes "ssh-ed25519" = sshEd25519 from rfl, hne, hne2, if_false, if_true]
+  have hne3 : ecdsaAlgos.contains sshEd25519 = false := by decide
+  simp only [show strBytes "ssh-ed25519" = sshEd25519 from rfl, hne, hne2, hne3, if_false, if_true, Bool.false_eq_true]
   have h2 := parseString_str k (by omega) []
   simp only [List.append_nil] at h2
   rw [h2]
